@@ -2,7 +2,7 @@
 From Coq Require Import String List ZArith Bool Ascii QArith Qcanon.
 Import ListNotations.
 Require Import NV.C26.Prelude NV.C26.Gen_helpers NV.C26.Model.
-Require Import NV.C26.ProofsShare NV.C26.ProofsNames NV.C26.ProofsFS NV.C26.ProofsMain NV.C26.ProofsStat.
+Require Import NV.C26.ProofsShare NV.C26.ProofsNames NV.C26.ProofsFS NV.C26.ProofsMain NV.C26.ProofsStat NV.C26.ProofsMean.
 Open Scope Z_scope.
 
 (* Round trip of a SampleList.  For EVERY prior directory content d that is well formed for this
@@ -34,6 +34,37 @@ Theorem C26_roundtrip_resid :
     load_resid A (fst (save_resid A d base m parts ov)) base ntask rank
       = Ret (m, slice (concat parts) ntask rank).
 Proof. exact roundtrip_resid. Qed.
+
+(* ResidualSampleList.load_mean after a successful ResidualSampleList.save: for EVERY prior directory
+   (a stale mean file of an earlier list included), every distribution of samples over saving tasks
+   (empty lists allowed) and every overwrite mode that can succeed, load_mean returns exactly the
+   mean of the saved list. *)
+Theorem C26_load_mean_roundtrip :
+  forall (A : Type) (d : dir A) (base : name) (m : A) (parts : list (list (A * bool))) (ov : bool),
+    can_save A d base (Z.of_nat (length (concat parts))) (Some (MeanC m)) ov ->
+    snd (save_resid A d base m parts ov) = Ret tt /\
+    load_mean A (fst (save_resid A d base m parts ov)) base = Ret (MeanC m).
+Proof. exact load_mean_after_resid. Qed.
+
+(* SampleList.save and the mean file: after a successful save with overwrite (when the source holds
+   the unlink statement, flag plain_save_unlinks_mean re-translated on every run) no mean file is
+   left, whatever the directory held -- load_mean raises; in every other case load_mean returns
+   what it returned before the save (the save neither creates nor alters a mean file). *)
+Theorem C26_plain_save_mean_file :
+  forall (A : Type) (d : dir A) (base : name) (parts : list (list A)) (ov : bool),
+    can_save A d base (Z.of_nat (length (concat parts))) None ov ->
+    snd (save_plain A d base parts ov) = Ret tt /\
+    load_mean A (fst (save_plain A d base parts ov)) base =
+      if plain_save_unlinks_mean && ov then Raise OtherError else load_mean A d base.
+Proof. exact load_mean_after_plain. Qed.
+
+(* Hence a stale mean of an earlier ResidualSampleList cannot leak into a ResidualSampleList.load
+   of samples written by SampleList.save(overwrite=True): that load raises on every task. *)
+Theorem C26_no_stale_mean_after_plain_overwrite :
+  forall (A : Type) (d : dir A) (base : name) (parts : list (list A)) (ntask rank : Z),
+    plain_save_unlinks_mean = true ->
+    load_resid A (fst (save_plain A d base parts true)) base ntask rank = Raise OtherError.
+Proof. exact load_resid_after_plain_overwrite. Qed.
 
 (* The slices of the loading tasks, concatenated in rank order, are the whole list (for every
    list, also when there are more tasks than samples). *)
@@ -130,6 +161,16 @@ Example C26_ex_roundtrip :
   load_plain_all val (fst (save_plain val ex_dir (str "sl") [[[10]; [11]]; []; [[12]]] true)) (str "sl") 4
   = [Ret [[10]]; Ret [[11]]; Ret [[12]]; Ret []].
 Proof. vm_compute. reflexivity. Qed.
+
+(* non-vacuity of the load_mean theorems: the stale mean [7] of ex_dir is replaced by the saved mean
+   [8]; a plain overwrite save removes it *)
+Example C26_ex_load_mean :
+  load_mean val (fst (save_resid val ex_dir (str "sl") [8] [[([10], true)]; [([11], false)]] true)) (str "sl")
+    = Ret (MeanC [8]) /\
+  load_mean val ex_dir (str "sl") = Ret (MeanC [7]) /\
+  load_mean val (fst (save_plain val ex_dir (str "sl") [[[10]]] true)) (str "sl")
+    = if plain_save_unlinks_mean then Raise OtherError else Ret (MeanC [7]).
+Proof. vm_compute. repeat split. Qed.
 
 Example C26_ex_wf : wf val ex_dir (str "sl").
 Proof.
